@@ -151,7 +151,8 @@ ABORT_FUNCS = {'_ZN4FEAT7Runtime5abortEb', '__cxa_throw', 'abort', '__cxa_pure_v
                '__cxa_rethrow', '__assert_fail', '_ZSt17__throw_bad_allocv', '_ZSt28__throw_bad_array_new_lengthv', '__cxa_bad_cast', '__cxa_bad_typeid', '__stack_chk_fail'}
 NOP_FUNCS = {'_ZN4FEAT7Backend21get_preferred_backendEv': 0, 'fprintf': 0, 'fwrite': 0, 'fflush': 0, 'fputs': 0, 'fputc': 0, 'puts': 0, 'printf': 0, '__cxa_atexit': 0,
              '_ZNSt8ios_base4InitC1Ev': None, '_ZNSt8ios_base4InitD1Ev': None, '__cxa_guard_acquire': 1, '__cxa_guard_release': None, '__cxa_guard_abort': None,
-             '__cxa_free_exception': None, 'backtrace': 0, 'backtrace_symbols': None}
+             '__cxa_free_exception': None, 'backtrace': 0, 'backtrace_symbols': None,
+             '_ZNSt18condition_variableC1Ev': None, '_ZNSt18condition_variableD1Ev': None, '_ZNSt18condition_variableC2Ev': None, '_ZNSt18condition_variableD2Ev': None}
 
 
 class Executor:
